@@ -14,6 +14,7 @@ import Kanzi.Drv.OBS
 import Kanzi.Drv.Cli
 import Kanzi.Drv.Jobs
 import Kanzi.Drv.Image
+import Kanzi.Drv.Range
 
 open Kanzi
 
@@ -176,5 +177,6 @@ def main (args : List String) : IO UInt32 := do
   | ["obs"] => loop stdin stdout Kanzi.Drv.obs; return 0
   | ["cli"] => loop stdin stdout Kanzi.Drv.cli; return 0
   | ["jobs"] => loop stdin stdout Kanzi.Drv.jobs; return 0
+  | ["range"] => loop stdin stdout Kanzi.Drv.range; return 0
   | ["image"] => loop stdin stdout Kanzi.Drv.image; return 0
   | _ => IO.eprintln "usage: kmodel <norm>"; return 2
